@@ -535,7 +535,18 @@ impl<'a> Walker<'a> {
                 self.local(l, out);
                 None
             }
-            syn::Stmt::Expr(e, _) => self.expr(e, out).and_then(|v| v.ty),
+            syn::Stmt::Expr(e, semi) => {
+                // help_transfer returns the table a retry has to continue on: a call whose result is discarded (statement
+                // position) inside a loop makes the retry re-read the forwarded bin of the old table for ever
+                if semi.is_some() && !self.loops.is_empty() {
+                    if let syn::Expr::MethodCall(m) = e {
+                        if m.method == "help_transfer" {
+                            out.push(Sk::Raw("assert(false);   // OBL:C11:the_table_returned_by_help_transfer_is_the_one_the_retry_continues_on".into()));
+                        }
+                    }
+                }
+                self.expr(e, out).and_then(|v| v.ty)
+            }
             syn::Stmt::Macro(m) => {
                 self.mac(&m.mac, out);
                 None
